@@ -132,7 +132,7 @@ pub fn insert_composite(sim: &Sim, id: Id, specs: &[ChildSpec], script: &Script)
                 children.push(Ch::Ping(src.into()));
                 models.push(ChildM::Ping { handle: Some(p), pending: false, closed: false });
             }
-            ChildSpec::Sock => {
+            ChildSpec::Sock | ChildSpec::SameFd => {
                 let (a, b) = os::socketpair();
                 let own = SharedFd(Rc::new(a));
                 children.push(Ch::Sock(Generic::new(own.clone(), Interest::READ, Mode::Level).into()));
